@@ -11,7 +11,10 @@ A program is a JSON-able dict:
      | {"k":"copy","src":i,"dst":j} | {"k":"done"} | {"k":"bid","ctl":c,"targets":[framer index|"me"|"all"]}
   need: {"k":"cd","sh":i,"op":op,"v":int} | {"k":"ci","a":i,"op":op,"b":j} | {"k":"bo","sh":i}
         | {"k":"el","op":op,"v":units} | {"k":"re","op":op,"n":int} | {"k":"dn","fr":framer index}
-        | {"k":"st","fr":framer index,"st":status}          each with optional "neg": true
+        | {"k":"st","fr":framer index,"st":status}
+        | {"k":"up"|"chg","sh":i,"frame":None|"me"|local frame index}   (`.v<i> is updated|changed [in frame [f]]`;
+          only in the needs of go / conditional aux items; the mark's key is the global number of the marked frame)
+        each with optional "neg": true
 Framers are named m<i>, frames f<g> with g the global frame number (declaration order), shares .v<i>.
 
 `render`   → FloScript text for the real Builder
@@ -97,6 +100,12 @@ def need_text(prog, i, nd):
         s = "m%d is done" % nd["fr"]
     elif k == "st":
         s = "m%d is %s" % (nd["fr"], nd["st"])
+    elif k in ("up", "chg"):
+        s = ".v%d is %s" % (nd["sh"], "updated" if k == "up" else "changed")
+        if nd.get("frame") == "me":
+            s += " in frame"
+        elif nd.get("frame") is not None:
+            s += " in frame f%d" % (bases(prog)[i] + nd["frame"])
     elif k == "ad":
         who = nd["which"] if isinstance(nd["which"], str) else "m%d" % nd["which"]
         fr = "me" if nd.get("frame") is None else "f%d" % (bases(prog)[i] + nd["frame"])
@@ -180,6 +189,8 @@ def need_enc(prog, i, nd, j=None):
         if nd["which"] == "all":
             return [neg, "xl", g]
         return [neg, "xn", g, nd["which"]]
+    if k in ("up", "chg"):
+        return [neg, "up" if k == "up" else "ch", nd["sh"], mark_key(prog, i, j, nd)]
     if k == "cd":
         return [neg, "cd", nd["sh"], OPS[nd["op"]], nd["v"]]
     if k == "ci":
@@ -202,6 +213,54 @@ def needs_enc(prog, i, needs, j=None):
     for nd in needs:
         out += need_enc(prog, i, nd, j)
     return out
+
+
+def mark_key(prog, i, j, nd):
+    """the mark `framer<frame` of a marker need in frame j of framer i: number of the marked frame"""
+    fr = nd.get("frame")
+    return bases(prog)[i] + (j if fr in (None, "me") else fr)
+
+
+def tracts_enc(prog, i, needs, j):
+    """NeedMarker._resolve: one transit marker act per marker need, in the order of the needs"""
+    out, n = [], 0
+    for nd in needs:
+        if nd["k"] == "up":
+            out += ["mku", nd["sh"], mark_key(prog, i, j, nd), 1]
+            n += 1
+        elif nd["k"] == "chg":
+            out += ["mkc", nd["sh"], mark_key(prog, i, j, nd)]
+            n += 1
+    return [n] + out
+
+
+def marker_enacts(prog, i):
+    """local frame index -> [(kind, share, key)]: the enact markers that the `in frame` clauses of framer i's marker
+    needs insert (one per kind/share/mark, NeedMarker._resolve de-duplicates); they come before the script's enacts"""
+    out = {}
+    for j, f in enumerate(prog["framers"][i]["frames"]):
+        for it in f["items"]:
+            if it["t"] in ("go", "aux"):
+                for nd in it.get("needs", []):
+                    if nd["k"] in ("up", "chg") and nd.get("frame") is not None:
+                        tgt = j if nd["frame"] == "me" else nd["frame"]
+                        ent = ("mku" if nd["k"] == "up" else "mkc", nd["sh"], mark_key(prog, i, j, nd))
+                        if ent not in out.setdefault(tgt, []):
+                            out[tgt].append(ent)
+    return out
+
+
+def mark_pairs(prog):
+    """sorted (share, key) pairs of all marker needs"""
+    ps = set()
+    for i, fr in enumerate(prog["framers"]):
+        for j, f in enumerate(fr["frames"]):
+            for it in f["items"]:
+                if it["t"] in ("go", "aux"):
+                    for nd in it.get("needs", []):
+                        if nd["k"] in ("up", "chg"):
+                            ps.add((nd["sh"], mark_key(prog, i, j, nd)))
+    return sorted(ps)
 
 
 def act_enc(prog, i, a):
@@ -243,17 +302,22 @@ def encode(prog):
     T += ["FR", len(prog["framers"])]
     for i, fr in enumerate(prog["framers"]):
         T += ["F", first_of(fr), len(fr["frames"])]
+        ment = marker_enacts(prog, i)
         for j, f in enumerate(fr["frames"]):
             T += ["f", "-" if f.get("over") is None else f["over"]]
             T += [0] if f.get("under") is None else [1, f["under"]]
             items = []
             n = 0
+            for (kind, sh, key) in ment.get(j, []):
+                items += ["A", "e", kind, sh, key] + ([0] if kind == "mku" else [])
+                n += 1
             for it in f["items"]:
                 t = it["t"]
                 if t == "act":
                     items += ["A", CTX1[it["ctx"]]] + act_enc(prog, i, it["act"])
                 elif t == "go":
-                    items += ["G", far_of(prog, i, j, it["far"])] + needs_enc(prog, i, it["needs"], j) + [0]
+                    items += ["G", far_of(prog, i, j, it["far"])] + needs_enc(prog, i, it["needs"], j) + \
+                        tracts_enc(prog, i, it["needs"], j)
                 elif t == "timeout":
                     items += ["G", far_of(prog, i, j, "next")] + needs_enc(prog, i, [{"k": "el", "op": ">=", "v": it["v"]}]) + [0]
                 elif t == "repeat":
@@ -261,7 +325,7 @@ def encode(prog):
                 elif t == "let":
                     items += ["L"] + needs_enc(prog, i, it["needs"], j)
                 elif t == "aux":
-                    items += ["X", it["aux"]] + needs_enc(prog, i, it["needs"], j) + [0]
+                    items += ["X", it["aux"]] + needs_enc(prog, i, it["needs"], j) + tracts_enc(prog, i, it["needs"], j)
                 n += 1
             T += [n] + items
     return " ".join(str(x) for x in T)
@@ -281,6 +345,12 @@ def valid(prog):
                     return False
                 if it["t"] == "aux" and not (0 <= it["aux"] < nf and prog["framers"][it["aux"]]["sched"] == "aux"):
                     return False
+                for nd in it.get("needs", []) if it["t"] in ("go", "aux", "let") else []:
+                    if nd["k"] in ("up", "chg"):
+                        if it["t"] == "let":
+                            return False
+                        if isinstance(nd.get("frame"), int) and not 0 <= nd["frame"] < len(fr["frames"]):
+                            return False
     return True
 
 
@@ -290,7 +360,7 @@ class _Snap(Exception):
     pass
 
 
-def run_impl(prog, want=("E", "S", "V", "Z")):
+def run_impl(prog, want=("E", "S", "V", "K", "Z")):
     """build with the real Builder, run with the real Skedder; canonical lines"""
     register()
     from ioflo.base import skedding, framing
@@ -317,6 +387,18 @@ def run_impl(prog, want=("E", "S", "V", "Z")):
     def num(frame):
         return "-" if frame is None else frame.name[1:]
 
+    def units(t):
+        if t is None:
+            return "-"
+        u = t * 8.0
+        return str(int(u)) if u == int(u) else repr(t)
+
+    pairs = mark_pairs(prog)
+    keyname = {}
+    for i in range(nfr):
+        for j in range(len(prog["framers"][i]["frames"])):
+            keyname[bs[i] + j] = "m%d<f%d" % (i, bs[i] + j)
+
     def snap(tag):
         recs = []
         for i in range(nfr):
@@ -334,6 +416,14 @@ def run_impl(prog, want=("E", "S", "V", "Z")):
             sh = store.fetchShare("v%d" % i)
             vals.append(str(sh.value) if sh is not None else "?")
         out.append("V " + ",".join(vals))
+        ks = []
+        for (shi, key) in pairs:
+            sh = store.fetchShare("v%d" % shi)
+            mk = sh.marks.get(keyname[key]) if sh is not None else None
+            ks.append("%d.%d:%s:%s:%s:%s" % (shi, key, units(sh.stamp if sh is not None else None),
+                                             units(mk.stamp if mk else None), units(mk.used if mk else None),
+                                             "-" if (mk is None or mk.data is None) else str(mk.data.value)))
+        out.append("K " + " ".join(ks))
 
     state = {"k": 0}
 
@@ -360,7 +450,7 @@ def run_impl(prog, want=("E", "S", "V", "Z")):
     return [l for l in out if l.split(" ", 1)[0] in want or l.startswith("ERR")]
 
 
-def model_lines(reply, want=("E", "S", "V", "Z")):
+def model_lines(reply, want=("E", "S", "V", "K", "Z")):
     if reply.startswith("ERR build"):
         return ["ERR build"]
     return [l for l in reply.split("|") if l.split(" ", 1)[0] in want or l.startswith("ERR")]
@@ -396,6 +486,34 @@ def gen_need(rng, prog_ctx, i):
 
 def gen_needs(rng, ctx, i, lo=1, hi=2):
     return [gen_need(rng, ctx, i) for _ in range(rng.randrange(lo, hi + 1))]
+
+
+def add_markers(rng, prog, p, skip=()):
+    """give transitions and conditional-aux clauses `is updated` / `is changed` conditions (with probability p per
+    clause; framers in `skip` are left alone): alone, or added to the conditions the clause has; on any share,
+    without / with `in frame` (the clause's own frame or another frame of the framer)"""
+    nsh = len(prog["shares"])
+    for i, fr in enumerate(prog["framers"]):
+        if i in skip:
+            continue
+        n = len(fr["frames"])
+        for j, f in enumerate(fr["frames"]):
+            for it in f["items"]:
+                if it["t"] == "go" or (it["t"] == "aux" and it["needs"]):
+                    if rng.random() >= p:
+                        continue
+                    r = rng.random()
+                    nd = {"k": "up" if rng.random() < 0.65 else "chg", "sh": rng.randrange(nsh),
+                          "frame": None if r < 0.3 else "me" if r < 0.7 else rng.randrange(n)}
+                    if rng.random() < 0.08:
+                        nd["neg"] = True
+                    if rng.random() < 0.5:
+                        it["needs"] = [nd]
+                    elif rng.random() < 0.5:
+                        it["needs"] = it["needs"] + [nd]
+                    else:
+                        it["needs"] = [nd] + it["needs"]
+    return prog
 
 
 def gen_program(rng, rich=1.0):
@@ -497,8 +615,8 @@ def gen_program(rng, rich=1.0):
                 items.append({"t": "act", "ctx": rng.choice(["enter", "recur", "precur"]), "act": {"k": "done"}})
             rng.shuffle(items)
             f["items"] = items
-    return {"ticks": rng.choice([4, 6, 8, 10, 12]), "period": rng.choice([8, 8, 4, 2, 1]),
-            "shares": [rng.randrange(3) for _ in range(nsh)], "framers": framers}
+    return add_markers(rng, {"ticks": rng.choice([4, 6, 8, 10, 12]), "period": rng.choice([8, 8, 4, 2, 1]),
+                             "shares": [rng.randrange(3) for _ in range(nsh)], "framers": framers}, 0.12)
 
 
 def shrink_program(prog):
@@ -708,8 +826,8 @@ def gen_susp(rng, full=False):
             rng.shuffle(its)
         framers[m] = {"sched": "active" if rng.random() < 0.9 else "inactive",
                       "first": rng.randrange(n) if rng.random() < 0.2 else None, "frames": frames}
-    return {"ticks": rng.choice([6, 8, 10, 12, 14]), "period": rng.choice([8, 8, 4, 1]),
-            "shares": [0, rng.randrange(3), rng.randrange(3)], "framers": framers}
+    return add_markers(rng, {"ticks": rng.choice([6, 8, 10, 12, 14]), "period": rng.choice([8, 8, 4, 1]),
+                             "shares": [0, rng.randrange(3), rng.randrange(3)], "framers": framers}, 0.08, skip=(0,))
 
 
 def fill_recs(prog, rng=None):
@@ -834,8 +952,8 @@ def gen_guards(rng):
     if rng.random() < 0.5 and nmain >= 1:       # the clock (re)starts a main framer at some tick
         cframes[-1]["items"].append({"t": "act", "ctx": "enter", "act": {"k": "bid", "ctl": "start",
                                                                           "targets": [rng.randrange(1, 1 + nmain)]}})
-    return {"ticks": rng.choice([8, 10, 12]), "period": rng.choice([8, 4, 1]),
-            "shares": [0, init_v1, 0], "framers": framers}
+    return add_markers(rng, {"ticks": rng.choice([8, 10, 12]), "period": rng.choice([8, 4, 1]),
+                             "shares": [0, init_v1, 0], "framers": framers}, 0.3, skip=(0,))
 
 
 def gen_auxes(rng, named_done=True):
